@@ -545,7 +545,7 @@ fn stake_vectors(tier: &str, rng: &mut StdRng) -> Vec<Vec<u64>> {
         out.push(eq(32, 1000));
         out.push(eq(64, 10));
         out.push(dominant(33, rng));
-        for _ in 0..12 {
+        for _ in 0..24 {
             let n = rng.random_range(2..=40usize);
             let v = match rng.random_range(0..3u32) {
                 0 => pareto(n, rng),
